@@ -67,6 +67,7 @@ type jFuncLookup struct {
 	Exported bool   `json:"exported,omitempty"`
 	Params   []int  `json:"params,omitempty"`
 	Results  []int  `json:"results,omitempty"`
+	Variadic bool   `json:"variadic,omitempty"`
 }
 
 type jComment struct {
@@ -453,7 +454,7 @@ func ExtractFacts(srcPath, dstPath, rel string) (*Facts, error) {
 		if !ok {
 			return jFuncLookup{K: "notFunc"}
 		}
-		r := jFuncLookup{K: "func", Name: obj.Name(), Exported: obj.Exported(), Params: []int{}, Results: []int{}}
+		r := jFuncLookup{K: "func", Name: obj.Name(), Exported: obj.Exported(), Params: []int{}, Results: []int{}, Variadic: sig.Variadic()}
 		if obj.Pkg() != nil {
 			r.PkgPath = obj.Pkg().Path()
 		}
